@@ -217,7 +217,8 @@ pub fn run(a: &Args) -> i32 {
         rep.count(&format!("vector:{}", kind));
         let norm = |r: &str| -> Value {
             match parse_reply(r) {
-                Reply::Ok(v) => json!({"ok": canon_numbers(&if *kind == "vars" { v["variables"].clone() } else { v })}),
+                // for `vars` the whole request body is compared: variables, query text and operationName
+                Reply::Ok(v) => json!({"ok": canon_numbers(&v)}),
                 Reply::Err(_) => json!("err"),
                 Reply::Other(o) => json!({"other": o}),
             }
